@@ -11,7 +11,9 @@ import (
 	"encoding/json"
 	"fmt"
 	"strings"
+	"syscall"
 	"time"
+	"unsafe"
 
 	"github.com/gregoryv/mq"
 	"pgregory.net/rapid"
@@ -231,7 +233,17 @@ func drawPlan(t *rapid.T, m *model.Packet) []api.Step {
 	default:
 		order = rapid.SliceOfN(rapid.IntRange(0, 40), 1, 64).Draw(t, "plan.order")
 		skip = rapid.SliceOfN(rapid.Bool(), n, n).Draw(t, "plan.skipzero")
-		return api.Plan(m, order, skip)
+		plan := api.Plan(m, order, skip)
+		if mode == 3 && len(plan) > 0 {
+			// read-only operations on the half-built packet between setter
+			// calls (String, WriteTo, Dump, WellFormed)
+			k := rapid.IntRange(1, 3).Draw(t, "plan.nprobes")
+			for i := 0; i < k; i++ {
+				pos := rapid.IntRange(0, len(plan)-1).Draw(t, "plan.probeat")
+				plan[pos].Probe = rapid.SampledFrom([]int{1, 2, 3, 4}).Draw(t, "plan.probe")
+			}
+		}
+		return plan
 	}
 }
 
@@ -361,3 +373,15 @@ func fuzzSeeds() [][]byte {
 func nowNanos() int64 { return time.Now().UnixNano() }
 
 func afterSeconds(n int) <-chan time.Time { return time.After(time.Duration(n) * time.Second) }
+
+// threadCPUNanos returns the CPU time consumed so far by the calling OS
+// thread (the goroutine must be locked to it), with nanosecond resolution
+// (clock_gettime CLOCK_THREAD_CPUTIME_ID; getrusage only has tick resolution).
+func threadCPUNanos() int64 {
+	var ts syscall.Timespec
+	const clockThreadCPUTimeID = 3
+	if _, _, errno := syscall.Syscall(syscall.SYS_CLOCK_GETTIME, clockThreadCPUTimeID, uintptr(unsafe.Pointer(&ts)), 0); errno != 0 {
+		return time.Now().UnixNano()
+	}
+	return ts.Nano()
+}
